@@ -1,12 +1,225 @@
-import QipVerif.Model.Sched
-/-! # C05 — gate scheduling preserves the unitary and qubit exclusivity (property theorems) -/
+import QipVerif.Lemmas.SchedGate
+import QipVerif.Lemmas.SchedOracle
+import Mathlib.Algebra.Group.Opposite
+import Mathlib.Algebra.BigOperators.Group.List.Lemmas
+import Mathlib.Algebra.FreeMonoid.Basic
+/-!
+# C05 — gate scheduling preserves the circuit's unitary and qubit exclusivity
+
+Property theorems only.  The model is `QipVerif.Sched` (`Model/Sched.lean`), tied to
+`qutip_qip.compiler.scheduler` by the correspondence harness `py/props/c05.py`.
+
+Every theorem is for **all** instruction lists `ns`, both methods (`alap`), both permutation
+settings (`allowPerm`) and an **arbitrary** ordering oracle `O2` of the scheduling pass whose only
+constraint is that it returns a permutation of the available list (`hO`).  The code's
+`random.shuffle`, its stable priority sort, and the unspecified iteration order of the successor
+`set` are all instances; `real_oracle_perm` / `gateCycles_eq` say that the executable model which
+is compared with the code is such an instance.
+
+`cyclesGen alap allowPerm ns O2` is the list returned by `schedule(..., return_cycles_list=True)`,
+`cycleIndices` the list returned by `schedule(..., gates_schedule=True)`.
+-/
 namespace QipVerif.C05
 open QipVerif.Sched
 
-/-- the witness of the known finding: two `QASMU` gates on qubit 0 (different angles) -/
+variable (alap allowPerm : Bool) (ns : List Ins)
+variable (O2 : Nat → List Nat → List Nat)
+
+/-- the executable model is an instance of the oracle-parametrised one … -/
+theorem gateCycles_eq (cfg : Cfg) : gateCycles cfg ns = cyclesGen cfg.alap cfg.allowPerm ns (O2of cfg ns) := rfl
+
+/-- … and its oracle (recorded shuffle, then the stable priority sort) returns permutations. -/
+theorem real_oracle_perm (cfg : Cfg) : ∀ r l, (O2of cfg ns r l).Perm l := O2of_perm cfg ns
+
+/-! ## (a) every gate is placed in exactly one cycle -/
+
+/-- **cycles_partition.**  The cycles, concatenated, are a permutation of `0 … n-1`: every gate index
+occurs in exactly one cycle, exactly once.  (Termination of the scheduling loop within its fuel is
+part of the statement: dependency edges go from smaller to larger index, `dep_edges_forward`.) -/
+theorem cycles_partition (hO : ∀ r l, (O2 r l).Perm l) :
+    (cyclesGen alap allowPerm ns O2).flatten.Perm (List.range ns.length) :=
+  cyclesGen_perm alap allowPerm ns O2 hO
+
+example : (gateCycles ⟨true, true, [[1, 0]]⟩
+    [⟨"X", [0], [], 1⟩, ⟨"CNOT", [1], [0], 1⟩, ⟨"X", [1], [], 1⟩, ⟨"SNOT", [0], [], 1⟩]) = [[0], [1], [3, 2]] := by
+  decide +kernel
+
+/-- the dependency graph is a DAG on `0 … n-1`: every edge goes from a smaller to a larger index -/
+theorem dep_edges_forward {a b : Nat} (h : (a, b) ∈ depEdges allowPerm ns) : a < b ∧ b < ns.length :=
+  depEdges_forward allowPerm ns h
+
+example : depEdges true [⟨"X", [0], [], 1⟩, ⟨"CNOT", [1], [0], 1⟩, ⟨"X", [1], [], 1⟩, ⟨"SNOT", [0], [], 1⟩]
+    = [(0, 1), (1, 3)] := by decide +kernel
+
+/-! ## (b) no two gates in one cycle share a qubit -/
+
+/-- **cycle_disjoint.** -/
+theorem cycle_disjoint (c : List Nat) (hc : c ∈ cyclesGen alap allowPerm ns O2) (i j : Nat) (hi : i ∈ c) (hj : j ∈ c)
+    (hij : i ≠ j) (q : Nat) (hq : q ∈ (getIns ns i).used) : q ∉ (getIns ns j).used := by
+  intro hq'
+  have h := cyclesGen_disjoint alap allowPerm ns O2 c hc i hi j hj hij
+  have : shareIdx ns i j = true := share_iff.mpr ⟨q, hq, hq'⟩
+  rw [h] at this
+  exact absurd this (by simp)
+
+example : [3, 2] ∈ gateCycles ⟨true, true, []⟩
+    [⟨"X", [0], [], 1⟩, ⟨"CNOT", [1], [0], 1⟩, ⟨"X", [1], [], 1⟩, ⟨"SNOT", [0], [], 1⟩] := by decide +kernel
+
+/-! ## (c) the order of non-commuting qubit-sharing gates is respected -/
+
+/-- `gate_cycles_indices[i]` is the index of the cycle that contains `i` -/
+theorem cycleIndices_getD (i : Nat) (hi : i < ns.length) (cs : List (List Nat)) :
+    (cycleIndices ns.length cs).getD i 0 = posOf cs i := by
+  simp [cycleIndices_eq, List.getD_eq_getElem?_getD, hi]
+
+/-- **order_respected.**  If `i < j` share a qubit and the commutation rule (the call
+`commuting(j, i)` the code makes) does not declare them commuting, then `i` is scheduled in a strictly
+earlier cycle than `j` — for ASAP and ALAP, every oracle. -/
+theorem order_respected (hO : ∀ r l, (O2 r l).Perm l) (i j : Nat) (hij : i < j) (hj : j < ns.length)
+    (hs : shareIdx ns i j = true) (hc : commIdx allowPerm ns j i = false) :
+    (cycleIndices ns.length (cyclesGen alap allowPerm ns O2)).getD i 0 <
+      (cycleIndices ns.length (cyclesGen alap allowPerm ns O2)).getD j 0 := by
+  rw [cycleIndices_getD ns i (by omega), cycleIndices_getD ns j hj]
+  exact cyclesGen_order alap allowPerm ns O2 hO hij hj hs hc
+
+example : shareIdx [⟨"X", [0], [], 1⟩, ⟨"CNOT", [1], [0], 1⟩] 0 1 = true ∧
+    commIdx true [⟨"X", [0], [], 1⟩, ⟨"CNOT", [1], [0], 1⟩] 1 0 = false := by decide +kernel
+
+/-- **order kept without permutation.**  With `allow_permutation=False` every two gates that share a
+qubit keep their original relative order. -/
+theorem order_kept_without_permutation (hO : ∀ r l, (O2 r l).Perm l) (i j : Nat) (hij : i < j)
+    (hj : j < ns.length) (hs : shareIdx ns i j = true) :
+    (cycleIndices ns.length (cyclesGen alap false ns O2)).getD i 0 <
+      (cycleIndices ns.length (cyclesGen alap false ns O2)).getD j 0 :=
+  order_respected alap false ns O2 hO i j hij hj hs (by simp [commIdx])
+
+/-- the commutation rule is symmetric, so the direction of the call does not matter -/
+theorem comm_rules_symm (a b : Ins) : commRules a b = commRules b a := commRules_symm a b
+
+/-! ## (d) trace-monoid lemma -/
+
+/-- **trace_lemma** (generic monoid): a permutation of a word that exchanges only commuting letters
+has the same product. -/
+theorem trace_lemma {ι M : Type*} [Monoid M] (g : ι → M) (l l' : List ι) (hp : l.Perm l')
+    (hc : ∀ i j, Before l i j → Before l' j i → Commute (g i) (g j)) :
+    (l.map g).prod = (l'.map g).prod :=
+  QipVerif.trace_lemma g l l' hp hc
+
+example : ([0, 1, 2].map (fun i : ℕ => i + 2)).prod = ([1, 0, 2].map (fun i : ℕ => i + 2)).prod := by decide
+
+/-! ## (e) the scheduled order has the same product as the original order -/
+
+section den
+variable {M : Type*} [Monoid M]
+
+/-- **schedule_den_partial.**  Over an arbitrary monoid `M` and an arbitrary interpretation `g` of the
+gates (by position, so that parameters not visible to the scheduler may differ), under
+
+* `H1`: gates on disjoint qubit sets commute,
+* `H2`: two qubit-sharing gates which `commutation_rules` declares commuting do commute,
+
+executing the gates cycle by cycle (any order inside a cycle, as returned) gives the same product as
+executing them in the original order.  `H1` is a fact about embedded operators (supplied centrally for
+ℂ-matrices).  **`H2` is false for the real gate library** (e.g. two `QASMU` gates on one qubit):
+see `C05_counterexample_den`; hence `_partial`. -/
+theorem schedule_den_partial (hO : ∀ r l, (O2 r l).Perm l) (g : Nat → M)
+    (H1 : ∀ i j, i < ns.length → j < ns.length → shareIdx ns i j = false → Commute (g i) (g j))
+    (H2 : ∀ i j, i < ns.length → j < ns.length → shareIdx ns i j = true →
+      commRules (getIns ns i) (getIns ns j) = true → Commute (g i) (g j)) :
+    ((cyclesGen alap allowPerm ns O2).flatten.map g).prod = ((List.range ns.length).map g).prod := by
+  apply cyclesGen_prod alap allowPerm ns g O2 hO H1
+  intro i j hij hj hs hc
+  have hc' : commRules (getIns ns j) (getIns ns i) = true := by
+    simp only [commIdx, Bool.and_eq_true] at hc; exact hc.2
+  have hs' : shareIdx ns j i = true := by rw [shareIdx, share_symm]; exact hs
+  exact (H2 j i hj (by omega) hs' hc').symm
+
+/-- the same for the matrix convention "first gate = rightmost factor" -/
+theorem schedule_den_partial_rev (hO : ∀ r l, (O2 r l).Perm l) (g : Nat → M)
+    (H1 : ∀ i j, i < ns.length → j < ns.length → shareIdx ns i j = false → Commute (g i) (g j))
+    (H2 : ∀ i j, i < ns.length → j < ns.length → shareIdx ns i j = true →
+      commRules (getIns ns i) (getIns ns j) = true → Commute (g i) (g j)) :
+    (((cyclesGen alap allowPerm ns O2).flatten.map g).reverse).prod = (((List.range ns.length).map g).reverse).prod := by
+  have h := schedule_den_partial alap allowPerm ns O2 hO (fun i => MulOpposite.op (g i))
+    (fun i j hi hj hs => (H1 i j hi hj hs).op) (fun i j hi hj hs hc => (H2 i j hi hj hs hc).op)
+  have key : ∀ l : List Nat, (l.map (fun i => MulOpposite.op (g i))).prod = MulOpposite.op ((l.map g).reverse.prod) := by
+    intro l
+    rw [MulOpposite.op_list_prod, List.map_reverse, List.reverse_reverse, List.map_map]
+    rfl
+  rw [key, key] at h
+  exact MulOpposite.op_injective h
+
+/-- the same with one interpretation `G` of instructions (gates without hidden parameters) -/
+theorem schedule_den_partial_ins (hO : ∀ r l, (O2 r l).Perm l) (G : Ins → M)
+    (H1 : ∀ a b : Ins, share a b = false → Commute (G a) (G b))
+    (H2 : ∀ a b : Ins, share a b = true → commRules a b = true → Commute (G a) (G b)) :
+    ((cyclesGen alap allowPerm ns O2).flatten.map (fun i => G (getIns ns i))).prod = (ns.map G).prod := by
+  have h := schedule_den_partial alap allowPerm ns O2 hO (fun i => G (getIns ns i))
+    (fun i j _ _ hs => H1 _ _ hs) (fun i j _ _ hs hc => H2 _ _ hs hc)
+  have hfun : (fun i => G (getIns ns i)) = G ∘ getIns ns := rfl
+  rw [h, hfun, ← List.map_map, map_getIns_range]
+
+end den
+
+example : shareIdx [⟨"Z", [0], [], 1⟩, ⟨"CNOT", [1], [0], 1⟩] 0 1 = true ∧
+    commRules ⟨"Z", [0], [], 1⟩ ⟨"CNOT", [1], [0], 1⟩ = true := by decide +kernel
+
+/-! ### the full statement (without `H2`) is false -/
+
+/-- the witness of the known finding: two `QASMU` gates on qubit 0 (their angles, invisible to the
+scheduler, differ: `QASMU(1,0,0)` and `QASMU(0,0,1)`) -/
 def witness : List Ins := [⟨"QASMU", [0], [], 1⟩, ⟨"QASMU", [0], [], 1⟩]
 
 /-- ALAP swaps the two gates of the witness. -/
 theorem C05_counterexample_order : gateCycles ⟨true, true, []⟩ witness = [[1], [0]] := by decide +kernel
+
+/-- **Refutation of `schedule_den` without `H2`.**  There is a monoid and an interpretation of the two
+gates of the witness satisfying `H1` for which the scheduled product differs from the original one
+(any two non-commuting elements; here the generators of the free monoid). -/
+theorem C05_counterexample_den :
+    ∃ g : Nat → FreeMonoid Nat,
+      (∀ i j, i < witness.length → j < witness.length → shareIdx witness i j = false → Commute (g i) (g j)) ∧
+      ((gateCycles ⟨true, true, []⟩ witness).flatten.map g).prod ≠ ((List.range witness.length).map g).prod := by
+  refine ⟨FreeMonoid.of, ?_, ?_⟩
+  · intro i j hi hj hs
+    have : ∀ i ∈ List.range 2, ∀ j ∈ List.range 2, shareIdx witness i j = true := by decide +kernel
+    rw [this i (List.mem_range.mpr hi) j (List.mem_range.mpr hj)] at hs
+    exact absurd hs (by simp)
+  · rw [C05_counterexample_order]
+    intro h
+    have h' := congrArg FreeMonoid.toList h
+    simp [witness, List.range_succ] at h'
+
+/-! ## (f) what `commutation_rules` answers `true` for -/
+
+/-- **comm_rule_table.**  The rule declares exactly five families of pairs commuting: same name with
+equal non-empty controls, or with equal targets; `CNOT` with `X`/`RX` on its target; `CNOT` with
+`Z`/`RZ` on its control (either order).  `H2` has to be discharged for these families; it fails for
+same-name pairs of families that do not commute with themselves. -/
+theorem comm_rule_table (a b : Ins) : commRules a b = true ↔
+    (a.name = b.name ∧ ((a.controls ≠ [] ∧ a.controls = b.controls) ∨ a.targets = b.targets)) ∨
+    (a.name = "CNOT" ∧ (b.name = "X" ∨ b.name = "RX") ∧ a.targets = b.targets) ∨
+    (a.name = "CNOT" ∧ (b.name = "Z" ∨ b.name = "RZ") ∧ a.controls = b.targets) ∨
+    (b.name = "CNOT" ∧ (a.name = "X" ∨ a.name = "RX") ∧ b.targets = a.targets) ∨
+    (b.name = "CNOT" ∧ (a.name = "Z" ∨ a.name = "RZ") ∧ b.controls = a.targets) :=
+  commRules_true_iff a b
+
+/-- the rule factors through a finite abstraction (name class × name class × six Boolean relations) … -/
+theorem comm_rule_abstraction (a b : Ins) : commRules a b =
+    commAbs (nameCls a.name) (nameCls b.name) (a.name == b.name) (!a.controls.isEmpty)
+      (a.controls == b.controls) (a.targets == b.targets) (a.controls == b.targets) (b.controls == a.targets) :=
+  commRules_abs a b
+
+/-- … on which it is this decidable table. -/
+theorem comm_rule_abs_table : ∀ (ca cb : NameCls) (same cne ceq teq act bct : Bool),
+    commAbs ca cb same cne ceq teq act bct = true ↔
+      (same = true ∧ ((cne = true ∧ ceq = true) ∨ teq = true)) ∨
+      (same = false ∧ (
+        ((ca = .cnot ∧ (cb = .x ∨ cb = .rx)) ∧ teq = true) ∨ ((cb = .cnot ∧ (ca = .x ∨ ca = .rx)) ∧ teq = true) ∨
+        ((ca = .cnot ∧ (cb = .z ∨ cb = .rz)) ∧ act = true) ∨ ((cb = .cnot ∧ (ca = .z ∨ ca = .rz)) ∧ bct = true))) :=
+  commAbs_true_iff
+
+example : commRules ⟨"QASMU", [0], [], 1⟩ ⟨"QASMU", [0], [], 1⟩ = true ∧
+    commRules ⟨"FREDKIN", [1, 2], [0], 1⟩ ⟨"FREDKIN", [2, 3], [0], 1⟩ = true := by decide +kernel
 
 end QipVerif.C05
